@@ -24,17 +24,27 @@ _m(
     "current data.  (dhist) a HISTORY on one PtychographyDatasetRaster: _set_intensities_com (stored intensities_4d or an "
     "explicit array, vectorised or looped, drawn mask, fit) and preprocess() (orientation forced in 3 of 4) interleaved "
     "with the intensities_4d / com_measured / com_fit setters, always ending with a measurement of the stored data.  "
+    "(bigcom) LARGE datasets, enumerated: for every power of two 2^20..2^24 one dataset whose number of values a*b*H*W is "
+    "the closest reachable below it and one the closest above it (a prime in 5..41 so no split of the scan rows into "
+    "equal groups is exact, H, W in 32..128 non-square, b derived; float32 noise plus one bright pixel per pattern, "
+    "optional binary mask, drawn non-dividing batch size); judged like com (both models, both paths, each other).  "
+    "Hypothesis draws the 10 descriptions, its all-minimal first example is dropped, no shrinking.  The ohist "
+    "histories set fitted origins per pattern / one for all / ALL AT THE TARGET corner (identity shift), run series of "
+    "set-origins+shift pairs on the same instance, and always end with a measurement.  "
     "A case is NON-TRIVIAL when: com - H != W and the "
     "oracle centre of mass is off the geometric centre and differs between row and column by > 0.05 px and some batch "
     "size 1 < bs < a*b does not divide a*b; fit - the row and column surfaces differ and (plane) some slope is non-zero "
     "with the two row-surface slopes different, (constant) the two constants differ; shift - H != W and some origin "
     "(r,c) has r != c and is not (0,0), or the side was enumerated and some origin is not (0,0); ohist - H != W and a "
-    "measurement follows a tensor-setter call that installed a different version after an earlier measurement; dhist - "
+    "measurement follows a tensor-setter call that installed a different version after an earlier measurement; bigcom - H != W and >= 2^19 values; dhist - "
     "H != W, >= 2 measurements and a replacement of the stored intensities between steps.  distinct = SHA-1 of the canonical JSON of the whole case.",
     [
         "oracle: float64 numpy weighted means of the array handed to quantem (marginal sums, then weights); quantem "
         "works in float32, tolerance 1e-3 px (measured clean-tree max 2.2e-6 px; worst-case float32 summation bound "
         "for <= 144 pixels and coordinates <= 11 is ~1e-4 px)",
+        "large datasets (bigcom): tolerance 1e-3 + 2e-6 * longest detector side px (results are stored in float32: "
+        "measured 1.5e-7 * side over detectors up to 256 px); the oracle accumulates the stored float32 values in "
+        "float64 (np.sum(dtype=float64)) without a float64 copy",
         "fits: 1e-3 px for the float32 PCA plane / mean and for float32 data through fit_origin (measured max 1.1e-5 in random search, 2.1e-5 on the steepest admissible planes), "
         "1e-6 px for float64 data through fit_origin (measured max 2.5e-9); surfaces are restricted to origins inside "
         "the detector (an origin is a detector coordinate), so plane slopes are bounded by (L-1)/(n-1)",
